@@ -40,7 +40,7 @@ MUTATIONS = ["Delete", "Duplicate", "Swap", "ReplaceReserved", "ReplaceGarbage",
 
 # ---------------------------------------------------------------- children
 
-def _run_job(scripts, work, tag, frames="", stats=False):
+def _run_job(scripts, work, tag, frames="", stats=False, retry=True):
     """build `scripts` in order in child processes; returns list of result dicts (outcome "timeout" for a hang)"""
     jobfile = os.path.join(work, "job-%s.json" % tag)
     with open(jobfile, "w") as f:
@@ -113,8 +113,13 @@ def _run_job(scripts, work, tag, frames="", stats=False):
             results[k] = {"outcome": "crash", "etype": "ChildDied", "msg": "child process ended while building (rc=%s) %s" % (p.returncode, err[-400:]),
                           "where": "child"}
         else:
-            results[k] = {"outcome": "timeout", "etype": "", "msg": "no answer after %.0f s" % LIMIT, "where": "Builder.build"}
-            ntimeouts += 1
+            # a starved machine can delay an innocent child: the script is built once more on its own before the hang counts
+            again = _run_job([scripts[k]], work, tag + "r", frames, stats, retry=False) if retry else [None]
+            if again[0] is not None and again[0]["outcome"] != "timeout":
+                results[k] = again[0]
+            else:
+                results[k] = {"outcome": "timeout", "etype": "", "msg": "no answer after %.0f s (twice)" % LIMIT, "where": "Builder.build"}
+                ntimeouts += 1
         nxt = k + 1
     for f in (jobfile, jobfile + ".err"):
         try:
@@ -195,7 +200,34 @@ def graph_script(g):
 
 
 def emitted(res):
-    return [json.loads(json.loads(ln)) for ln in res.out.splitlines() if ln.startswith('"{')]
+    return B.emitted_json(res.out)
+
+
+def n_over_graphs(maxframes, maxunderframes, maxunders):
+    """number of (over, under) graphs Resolve.tla starts from, counted independently of TLC's output"""
+    from itertools import product
+    from math import comb
+    total = 0
+    for n in range(1, maxframes + 1):
+        for ov in product(range(0, n + 2), repeat=n):
+            wf = all(o != n + 1 for o in ov)
+            if wf:
+                for f in range(1, n + 1):
+                    g, k = ov[f - 1], 0
+                    while g and k <= n:
+                        if g == f:
+                            wf = False
+                            break
+                        g, k = ov[g - 1], k + 1
+                    if not wf:
+                        break
+            if not wf or (n > maxunderframes and maxunders == 0):
+                total += 1
+            elif n <= maxunderframes:
+                total += (n + 2) ** n
+            else:
+                total += sum(comb(n, k) * (n + 1) ** k for k in range(0, maxunders + 1))
+    return total
 
 
 def part_resolve(ctx, work, nproc):
@@ -205,7 +237,10 @@ def part_resolve(ctx, work, nproc):
         return open(SPEC_DIR + "/" + name).read().replace("MaxUnders = 0", "MaxUnders = %d" % consts["MaxUnders"])
 
     # one run: LiveSpec (weak fairness) with the liveness property Termination, the invariants, and the verdicts printed
-    res = tlc.run("Resolve", cfg("Resolve.cfg"), spec_dir=SPEC_DIR, tag="c14res", workers=max(1, env.NCPU // 2))
+    ngraphs = n_over_graphs(consts["MaxFrames"], consts["MaxUnderFrames"], consts["MaxUnders"])
+    res, graphs = B.run_emitting(lambda w: tlc.run("Resolve", cfg("Resolve.cfg"), spec_dir=SPEC_DIR, tag="c14res",
+                                                   workers=w or max(1, env.NCPU // 2)),
+                                 lambda r: ngraphs, "Resolve")
     consts["specification"] = "LiveSpec = Spec /\\ WF_vars(Next); PROPERTY Termination"
     if not res.ok and res.error == "temporal":
         ctx.add_model(res, "Resolve", consts)
@@ -218,9 +253,8 @@ def part_resolve(ctx, work, nproc):
                                steps=[{"action": a, "state": s} for a, s in res.trace]))
         return 0
     tlc.require_coverage(res, ["Start", "NextFrame", "Fail", "Climb", "EndOvers", "TraceStart", "Descend", "TraceFail", "TraceEnd", "Finish"], "Resolve")
-    graphs = emitted(res)
-    if len(graphs) != res.coverage["Init"][1]:
-        raise tlc.TlcError("Resolve: %d verdicts printed for %d graphs" % (len(graphs), res.coverage["Init"][1]))
+    if len(set(json.dumps([g["nf"], g["over"], g["under"]]) for g in graphs)) != ngraphs:
+        raise tlc.TlcError("Resolve: the %d verdicts are not one per graph" % len(graphs))
     kinds = {}
     for g in graphs:
         kinds[g["kind"]] = kinds.get(g["kind"], 0) + 1
@@ -268,7 +302,7 @@ def clone_script(g):
 def clones_model(ctx):
     maxmoots = ctx.pick(2, 3)
     cfg = open(SPEC_DIR + "/ResolveClones.cfg").read().replace("MaxMoots = 2", "MaxMoots = %d" % maxmoots)
-    return maxmoots, tlc.run("ResolveClones", cfg, spec_dir=SPEC_DIR, tag="c14clones", workers=max(1, env.NCPU // 3))
+    return maxmoots, tlc.run("ResolveClones", cfg, spec_dir=SPEC_DIR, tag="c14clones", workers=1)   # small; one worker: output intact
 
 
 def part_clones(ctx, work, nproc, model):
@@ -286,8 +320,9 @@ def part_clones(ctx, work, nproc, model):
             raise tlc.TlcError("ResolveClones: two verdicts for one graph %s" % k)
         graphs[k] = g
     graphs = list(graphs.values())
-    if len(graphs) != res.coverage["Init"][1]:
-        raise tlc.TlcError("ResolveClones: %d verdicts for %d graphs" % (len(graphs), res.coverage["Init"][1]))
+    ngraphs = sum(2 ** (m * m) * 2 ** m for m in range(1, maxmoots + 1))     # uses-graphs x root sets, counted independently
+    if len(graphs) != ngraphs:
+        raise tlc.TlcError("ResolveClones: %d verdicts for %d graphs" % (len(graphs), ngraphs))
     kinds = {}
     for g in graphs:
         kinds[g["kind"]] = kinds.get(g["kind"], 0) + 1
